@@ -1,50 +1,12 @@
 // C13 — start with arbitrary configuration files terminates with 0 or 1, never crashes or hangs.
 #include "common.h"
 #include "cfggen.h"
+#include "cfgmut.h"
 #include <sstream>
 
 namespace {
 
-static std::vector<std::string> split_lines(const std::string &s) { std::vector<std::string> v; std::stringstream ss(s); std::string l; while (std::getline(ss, l)) v.push_back(l); return v; }
-static std::string join_lines(const std::vector<std::string> &v) { std::string s; for (auto &l : v) { s += l; s += '\n'; } return s; }
-
-static std::string mutate(Rng &r, const std::string &txt, std::map<std::string, int> &kinds) {
-	std::vector<std::string> L = split_lines(txt);
-	int n = (int) r.range(1, 3);
-	for (int k = 0; k < n; k++) {
-		if (L.empty()) break;
-		size_t i = r.below(L.size());
-		switch (r.below(14)) {
-			case 0: L.erase(L.begin() + (long) i); kinds["delete-line"]++; break;
-			case 1: L.insert(L.begin() + (long) i, L[i]); kinds["duplicate-line"]++; break;
-			case 2: { size_t j = r.below(L.size()); std::swap(L[i], L[j]); kinds["swap-lines"]++; break; }
-			case 3: { // duplicate a block (an item starting with "- ")
-				size_t a = i; while (a > 0 && L[a].find("- ") == std::string::npos) a--;
-				size_t b = a + 1; size_t ind = L[a].find("- ");
-				while (b < L.size() && (L[b].find_first_not_of(' ') > ind || L[b].find_first_not_of(' ') == std::string::npos)) b++;
-				std::vector<std::string> blk(L.begin() + (long) a, L.begin() + (long) b);
-				L.insert(L.begin() + (long) (r.coin() ? a : b), blk.begin(), blk.end()); kinds["duplicate-item"]++; break;
-			}
-			case 4: { size_t c = L[i].find(':'); if (c != std::string::npos && c > 0) { L[i][c - 1] = 'x'; } kinds["rename-key"]++; break; }
-			case 5: { size_t c = L[i].find(": "); if (c != std::string::npos) { static const char *bad[] = {"0xZZ", "0x1", "0x123456789", "-1", "256", "", "[1, 2]", "{a: b}", "'", "0x", "~", "true", "999999999999999999999"}; L[i] = L[i].substr(0, c + 2) + bad[r.below(13)]; } kinds["bad-value"]++; break; }
-			case 6: { L[i] = std::string((size_t) r.below(9), ' ') + L[i].substr(std::min(L[i].size(), L[i].find_first_not_of(' ') == std::string::npos ? 0 : L[i].find_first_not_of(' '))); kinds["reindent"]++; break; }
-			case 7: { std::string g; for (size_t q = 0, m = (size_t) r.range(1, 30); q < m; q++) g += (char) r.range(1, 255); L.insert(L.begin() + (long) i, g); kinds["garbage-line"]++; break; }
-			case 8: { // copy a value (e.g. an id or address) onto another line with the same key
-				size_t c = L[i].find(": "); if (c == std::string::npos) break;
-				std::string key = L[i].substr(L[i].find_first_not_of(" -"), c - L[i].find_first_not_of(" -"));
-				std::vector<size_t> same; for (size_t q = 0; q < L.size(); q++) if (q != i && L[q].find(key + ": ") != std::string::npos) same.push_back(q);
-				if (!same.empty()) { size_t q = same[r.below(same.size())]; size_t c2 = L[q].find(": "); L[q] = L[q].substr(0, c2 + 2) + L[i].substr(c + 2); }
-				kinds["duplicate-value"]++; break;
-			}
-			case 9: { size_t c = L[i].find(':'); if (c != std::string::npos) L[i] = L[i].substr(0, c + 1); kinds["scalar-to-empty"]++; break; }
-			case 10: { L[i] = L[i] + " # " + std::string((size_t) r.below(5), '!'); size_t c = L[i].find(": "); if (c != std::string::npos) L[i].insert(c + 2, "- "); kinds["scalar-to-seq"]++; break; }
-			case 11: { L.resize(i); kinds["truncate-lines"]++; break; }
-			case 12: { size_t a = L[i].find("- "); if (a != std::string::npos) L[i].erase(a, 2); kinds["remove-dash"]++; break; }
-			case 13: { L.insert(L.begin() + (long) i, r.coin() ? "---" : "..."); kinds["document-marker"]++; break; }
-		}
-	}
-	return join_lines(L);
-}
+using cfgmut::mutate; using cfgmut::split_lines; using cfgmut::join_lines;
 
 struct C13 : Prop {
 	const char *id() const override { return "C13"; }
